@@ -269,8 +269,10 @@ pub fn emit_case_known(out: &mut dyn Write, group: &str, c: &Case, verbose: bool
         }
     } else if !panicked {
         // an injected panic must propagate, provided the closure was reached in the sequential order
-        let reached = ex.log.iter().any(|e| Some(*e) == c.panic_at.map(|(s, a)| (s, a)));
-        let fired = r.rec.events.iter().any(|e| Some((e.stage, e.arg)) == c.panic_at);
+        let red_panic = matches!(c.panic_at, Some((ST_RED, _)));
+        // the operator is invoked (#survivors - 1) times whatever the grouping
+        let reached = if red_panic { c.panic_at.map(|(_, k)| (k as usize) < ex.seq_vals.len()).unwrap_or(false) } else { ex.log.iter().any(|e| Some(*e) == c.panic_at.map(|(s, a)| (s, a))) };
+        let fired = if red_panic { r.rec.events.iter().any(|e| e.stage == ST_RED_FIRED) } else { r.rec.events.iter().any(|e| Some((e.stage, e.arg)) == c.panic_at) };
         if fired {
             fails.push("C14:closure-panicked-but-call-returned-a-value".into());
         } else if reached && !c.term.is_find_family() {
@@ -1281,6 +1283,18 @@ pub fn run(out: &mut dyn Write, prop: &str, seed: u64, thorough: bool) -> std::i
                 emit_case(out, "exact", &c, false)?;
                 total_c.set(total_c.get() + 1);
             }
+            // chunk sizes over several orders of magnitude on iterator sources (exact and unknown
+            // length): the next() bursts of the instrumented source are the real pull sizes
+            for _ in 0..n(60, 600) {
+                let mut c = gen_large_case(&mut rng, &[TermD::CollectVec, TermD::Count, TermD::Reduce(RedD::Add), TermD::CollectX, TermD::Collect], &["M", "F", "MF", "P", "PF", "X", "XF", "MM"], false);
+                c.src_kind = *rng.pick(&['k', 'u', 'u']);
+                let len = c.input.len();
+                let cz = *rng.pick(&[64usize, 700, 1024, 1025, 1500, 2048, 3000, 4096, 5000, len / 3 + 1]);
+                let nt = rng.range(2, 6) as usize;
+                c.sets[0] = vec![SetD::NtUsize(nt), if rng.chance(1, 2) { SetD::CsUsize(cz) } else { SetD::CsEnum(ChunkSize::Exact(nz(cz))) }];
+                emit_case(out, "large", &c, false)?;
+                total_c.set(total_c.get() + 1);
+            }
         }
         "C12" => {
             // exhaustive: every chain of <= 3 transformations x one setter at every position
@@ -1500,6 +1514,10 @@ pub fn run(out: &mut dyn Write, prop: &str, seed: u64, thorough: bool) -> std::i
                         if rng.chance(1, 4) {
                             cand = cand.iter().map(|e| (e.0, e.1 + 1)).collect();
                         }
+                    }
+                    if matches!(c.term, TermD::Reduce(_)) && rng.chance(1, 2) && ex.seq_vals.len() >= 2 {
+                        // the reduce operator itself panics, at its k-th invocation
+                        cand = vec![(ST_RED, rng.range(1, ex.seq_vals.len() as u64 - 1))];
                     }
                     if cand.is_empty() {
                         continue;
